@@ -1159,3 +1159,20 @@ Proof.
   { unfold field_default. apply map_assoc_self; [exact Hns|lia]. }
   rewrite A, B. reflexivity.
 Qed.
+
+(* the default names=None: all fields, in storage order (the only change is the int32 -> float64 cast) *)
+Theorem to_array_all_fields (x : sarr) :
+  NoDup (s_names x) -> Forall (fun r => length r = length (s_names x)) (s_rows x) ->
+  lp_to_array x (s_names x) = Ok (s_rows x)
+  /\ lp_to_array_all x = Ok (map (map to_f8) (s_rows x))
+  /\ lp_to_dict x (s_names x) = Ok (combine (s_names x) (map (fun i => col_at i (s_rows x)) (seq 0 (length (s_names x))))).
+Proof.
+  intros Hnd Hw.
+  pose proof (map_opt_index0 (s_names x) [] ) as E. rewrite app_nil_r in E. specialize (E Hnd).
+  assert (A : lp_to_array x (s_names x) = Ok (s_rows x)).
+  { unfold lp_to_array. rewrite E. f_equal. etransitivity; [|apply map_id]. apply map_ext_in. intros r Hr.
+    rewrite Forall_forall in Hw. rewrite <- (Hw r Hr). apply pick_all0. }
+  split; [exact A|]. split.
+  - unfold lp_to_array_all. rewrite A. reflexivity.
+  - unfold lp_to_dict. rewrite E. reflexivity.
+Qed.
